@@ -102,11 +102,13 @@ PrefixText(row, line, guides) ==
 
 \* wrapped rows: the rows grouped under one number concatenate to the line; at each row
 \* boundary a run of spaces of the line may have been cut off (it was right padding of the row)
-SpaceRun(l, p) == LET ns == {q \in p..Len(l) : l[q] # SP}
+\* (word wrapping breaks at white space in Python's sense - str.isspace / regex \s - not only at U+0020)
+IsWS(c) == c \in {SP, 28, 29, 30, 31, 133, 160, 5760, 8232, 8233, 8239, 8287, 12288} \/ (c >= 8192 /\ c <= 8202)
+SpaceRun(l, p) == LET ns == {q \in p..Len(l) : ~IsWS(l[q])}
                   IN IF ns = {} THEN MaxI(0, Len(l) - p + 1) ELSE MinS(ns) - p
 RECURSIVE WrapFrom(_, _, _, _, _)
 WrapFrom(ts, i, line, pos, guides) ==
-    IF i > Len(ts) THEN \A k \in pos..Len(line) : line[k] = SP
+    IF i > Len(ts) THEN \A k \in pos..Len(line) : IsWS(line[k])
     ELSE LET r == RStrip(ts[i])
              e == pos + Len(r) - 1
              l == PadTo(line, e)
@@ -155,8 +157,14 @@ NumberedVerdict(r, all) ==
        ELSE IF \E k \in 1..Len(G) : ~TextOK(r.mode, r.guides, G[k].ts, all[lo + k - 1]) THEN "text-differs"
        ELSE "ok"
 
+\* A line range without line numbers: the statement speaks of ranges only "with line numbers shown", so WHICH lines
+\* appear is left open - but what appears must still be source lines, in order, unchanged: the rows are some
+\* contiguous run of the lines (possibly none)
+ContiguousRun(r, all) ==
+    r.rows = <<>> \/ \E off \in 0..(Len(all) - Len(r.rows)) :
+                        \A k \in 1..Len(r.rows) : TextOK(r.mode, FALSE, <<r.rows[k].t>>, all[off + k])
 PlainVerdict(r, all) ==
-    IF r.range # <<>> THEN "ok"        \* the statement speaks of ranges only "with line numbers shown"
+    IF r.range # <<>> THEN (IF r.mode = "wrap" \/ ContiguousRun(r, all) THEN "ok" ELSE "rows-are-not-a-run-of-source-lines")
     ELSE IF r.mode = "wrap"
          THEN (IF \E n \in ExistCounts(all) : MatchFrom(all, n, r.rows, 1, 1) THEN "ok"
                ELSE "wrapped-rows-are-not-the-lines")
